@@ -685,9 +685,12 @@ fn expand_brace_range(tokens: &mut types::Tokens) {
             incr = 1;
         }
 
+        // (count in 64 bits: a bound next to the end of the 32-bit range
+        // must not overflow)
+        let (end, incr) = (i64::from(end), i64::from(incr));
         let mut result: Vec<String> = Vec::new();
-        let mut n = start;
-        if start > end {
+        let mut n = i64::from(start);
+        if n > end {
             while n >= end {
                 result.push(format!("{}{}{}", head, n, tail));
                 n -= incr;
